@@ -257,7 +257,7 @@ theorem cmpOp_ordered {op : String} (h : CmpOp op) : ∃ sop, (sop, op) ∈ orde
   · exact ⟨.lt, by decide⟩
   · exact ⟨.eq, by decide⟩
 
-theorem pyItem3_agree {Q : String → List Nat → Prop} (E : Env) (X Y Z : Nat) (hE : EnvPy E X Y Z) (n op v : String)
+theorem pyItem3_agree {Q : String → String → List Nat → Prop} (E : Env) (X Y Z : Nat) (hE : EnvPy E X Y Z) (n op v : String)
     (h : PyItemQ Q n op v) :
     (∃ b, itemV E n op v false = .ok b ∧ evalItem n op v false E = some b) ∧ itemCoherent n op v false = true := by
   obtain ⟨lit, hn, hop, hne, hfull, _, rfl⟩ := h
@@ -271,7 +271,7 @@ theorem pyItem3_agree {Q : String → List Nat → Prop} (E : Env) (X Y Z : Nat)
     exact ⟨⟨b, h1, h2⟩, h3⟩
 
 mutual
-theorem pyAtom_agree {Q : String → List Nat → Prop} (E : Env) (X Y Z : Nat) (hE : EnvPy E X Y Z) :
+theorem pyAtom_agree {Q : String → String → List Nat → Prop} (E : Env) (X Y Z : Nat) (hE : EnvPy E X Y Z) :
     ∀ a : Atom, PyAtomQ Q a → a.agree E ∧ a.coh = true
   | .item n op v sw, h => by
     simp only [PyAtomQ] at h
@@ -279,7 +279,7 @@ theorem pyAtom_agree {Q : String → List Nat → Prop} (E : Env) (X Y Z : Nat) 
     simpa [Atom.agree, Atom.coh] using pyItem3_agree E X Y Z hE n op v hi
   | .paren m, h => by
     simpa [Atom.agree, Atom.coh] using pySyn_agree E X Y Z hE m (by simpa [PyAtomQ] using h)
-theorem pySyn_agree {Q : String → List Nat → Prop} (E : Env) (X Y Z : Nat) (hE : EnvPy E X Y Z) :
+theorem pySyn_agree {Q : String → String → List Nat → Prop} (E : Env) (X Y Z : Nat) (hE : EnvPy E X Y Z) :
     ∀ s : Syn, PySynQ Q s → s.agree E ∧ s.coh = true
   | .one a, h => by
     simpa [Syn.agree, Syn.coh] using pyAtom_agree E X Y Z hE a (by simpa [PySynQ] using h)
@@ -362,7 +362,7 @@ theorem parseMarker_sem {E : Env} {ev : Leaf → Bool} {G : Leaf → Prop} (S : 
 
 /-- what `create_nested_marker` prints for a constraint of the domain: the empty text for the universal range,
 otherwise a text that parses to a tree of python items whose reference value is membership -/
-theorem createNested_synQ {Q : String → List Nat → Prop} (E : Env) (c : VC) (hd : PyDomVC c = true)
+theorem createNested_synQ {Q : String → String → List Nat → Prop} (E : Env) (c : VC) (hd : PyDomVC c = true)
     (hQ : ∀ rc ∈ c.flatten, RCBoundQ Q rc) (X Y Z : Nat) (hE : EnvPy E X Y Z) :
     ∃ txt, createNestedMarker "python_version" c = .ok txt ∧
       ((txt = "" ∧ c.allowsPlain (pyV X Y Z) = true) ∨
